@@ -28,14 +28,16 @@ import (
 )
 
 type engine struct {
-	a   *lib.Args
-	rng *lib.Rng
-	m   *lib.Model
-	rep *lib.Report
-	le  *logrus.Entry
-	ctx context.Context
-	bus bus.Bus
-	dis map[string]int
+	a    *lib.Args
+	rng  *lib.Rng
+	m    *lib.Model
+	rep  *lib.Report
+	le   *logrus.Entry
+	ctx  context.Context
+	bus  bus.Bus
+	dis  map[string]int
+	spy  *linkSpy // C34: the only controller answering EstablishLinkWithPeer on the harness bus
+	fwdN int
 }
 
 // cmp is rep.Compare, except that after three disagreements with the same finding key further
@@ -160,6 +162,9 @@ func contains(l []string, s string) bool {
 }
 
 func main() {
+	if histChildMain(c36HistTable) { // re-executed as the fresh process of the history phase (hist.go)
+		return
+	}
 	a := lib.ParseArgs()
 	e := &engine{a: a, rng: lib.NewRng(a.Seed), m: lib.NewModel(a.Driver)}
 	e.rep = lib.NewReport("dispatch", a)
